@@ -39,6 +39,8 @@ APPROX = ("reroot", "split")
 # ------------------------------------------------------------------ base configurations
 
 USER_MODES = ["sym", "pair", "single", "pair+sym"]
+WORD_BASES = [("codon", "monomers"), ("trinuc", "monomers"), ("dinuc", "monomers"), ("codon", "conditional"), ("codon", "monomer"),
+              ("trinuc", "conditional"), ("dinuc", "tuple"), ("codon", "tuple"), ("trinuc", "monomer")]
 
 
 def rand_user_predicates(rng, mode=None):
@@ -71,20 +73,44 @@ def built_base_case(rng, tier, k=0):
         c = c02.built_case(rng, tier, "nuc")
         c["build"] = {"kind": "nuc", "mprob_model": None, "predicates": preds, "may_refuse": True, "mode": mode}
     else:
-        c = c02.built_case(rng, tier, ["dinuc", "codon"][(k // 5) % 2], c02.MPROB_MODELS[(k // 5 + 2) % 4])
+        # word models, position-specific ('monomers') probabilities on 3-letter words first: the runner gives every
+        # position of the word its own monomer distribution
+        kind_, mp_ = WORD_BASES[(k // 5) % len(WORD_BASES)]
+        c = c02.built_case(rng, tier, kind_, mp_, gaps=False)
     # regenerate on a tree with internal nodes so that the root can move
     kind = c["build"]["kind"]
     ntips = rng.randint(4, 6 if kind == "nuc" else 5)
     tree = c02.rand_tree(rng, ntips)
     names = c02.tips(tree)
     rng.shuffle(names)
-    words = c["build"].get("motifs") or (list(c02.SENSE) if kind == "codon" else list(c02.DINUCS) if kind == "dinuc" else None)
+    words = c["build"].get("motifs") or (c02.sense_codons(c.get("gc")) if kind == "codon" else list(c02.DINUCS) if kind == "dinuc"
+                                         else list(c02.ALL_CODONS) if kind == "trinuc" else None)
     ncols = rng.randint(3, 6) if kind != "nuc" else rng.randint(4, 14)
     c.update(tree=c02.newick(tree), _t=tree, scoped=None, bins=c02.rand_bins(rng, [2, 3], [0.5, 2.0]) if rng.random() < 0.25 else None,
              aln=c02.rand_alignment(rng, names, "codon" if kind == "codon" else "dna", ncols, words, c["recode_gaps"]),
              light=kind != "nuc", xf="base", factor=1)
     c.pop("block", None)
     return c
+
+
+FROM_ALIGN_XF = ("cols", "rows", "children", "repeat", "repeat_each")
+
+
+def from_align_base(rng, tier, k):
+    """motif probabilities taken FROM the alignment (make_likelihood_function(..., motif_probs_from_align=True),
+    constant, with or without an explicit motif_pseudocount at set_alignment).  What the property promises there:
+    the probabilities are a function of the column composition only, so permuting columns / rows / children leaves
+    lnL unchanged and repeating the alignment (or every column) k times leaves the composition unchanged and
+    multiplies lnL by k.  (Re-rooting / edge splits hold too but are exercised with fixed probabilities.)"""
+    model = ["HKY85", "GTR", "F81", "TN93", "HKY85", "GTR"][k % 6]   # reversible models: motif probs constant by default (GN frees them: a pseudocount is then legitimate)
+    tree = c02.rand_tree(rng, rng.randint(3, 6))
+    names = c02.tips(tree)
+    rng.shuffle(names)
+    recode = rng.random() < 0.6
+    return dict(model=model, moltype="dna", tree=c02.newick(tree), _t=tree,
+                aln=c02.rand_alignment(rng, names, "dna", rng.randint(6, 16), None, recode), mprobs=None, pseed=rng.randrange(1 << 30),
+                scoped=None, bins=None, light=False, xf="base", factor=1, recode_gaps=recode,
+                from_align={"pseudocount": [None, 0.5, 1.0, 2.0, 0.25][k % 5]})
 
 
 def base_case(rng, tier):
@@ -248,6 +274,8 @@ def xf_split(rng, case, target, extreme=None):
 def variants(rng, case, tier):
     out = [xf_cols(rng, case), xf_rows(rng, case), xf_children(rng, case), xf_relabel(rng, case), xf_repeat(rng, case),
            xf_repeat_each(rng, case)]
+    if case.get("from_align"):
+        return [v for v in out if v["xf"] in FROM_ALIGN_XF]
     t = case["_t"]
     inner = [x["name"] for x in c02.nodes(t) if x["ch"] and x["len"] is not None]
     edges = [x["name"] for x in c02.nodes(t) if x["len"] is not None]
@@ -548,9 +576,11 @@ def run(tier: str, seed: int) -> int:
         "executed model instance Z (Z_laws) on the implementation's own floats scaled by a power of two (see C02)",
     ])
     proof_broken = bool(pr["problems"])
-    nbase = 26 if tier == "quick" else 180
+    nbase = 22 if tier == "quick" else 180
     nbuilt = 20 if tier == "quick" else 120
-    bases = [base_case(rng, tier) for _ in range(nbase)] + [built_base_case(rng, tier, k) for k in range(nbuilt)]
+    nfa = 6 if tier == "quick" else 60
+    bases = ([base_case(rng, tier) for _ in range(nbase)] + [built_base_case(rng, tier, k) for k in range(nbuilt)]
+             + [from_align_base(rng, tier, k) for k in range(nfa)])
     groups = [zero_length_corpus()] + [(b, variants(rng, b, tier)) for b in bases]
     flat = []
     for b, vs in groups:
